@@ -21,7 +21,7 @@ ORDERS = {'be': list(range(8)), 'le16': [1, 0, 3, 2, 5, 4, 7, 6], 'le32': [3, 2,
 def space(order='be'):
     """availability first, then the bytes with the most significant byte of every unit first (compact decision diagrams)"""
     sp = Space(); sp.var('avail', CAP + 1)
-    for k in ORDERS[order]: sp.var('b%d' % k, 256)
+    for k in ORDERS[order] + [8]: sp.var('b%d' % k, 256)
     return sp
 
 
